@@ -321,3 +321,102 @@ def mesh_immutable(ctx, rule: str, consequence: str):
     ctx.ob(rule, f"{n} functions scanned: Mesh/EdgeMesh geometry is written by the constructors only", True,
            detail={"functions": n, "attributes": len(geom)}, where="package", construct="mesh immutability (package)")
     return findings
+
+
+SERIALISERS = ("__getstate__", "__reduce__", "__reduce_ex__", "to_hdf5", "_save_to_hdf5_file", "__getnewargs__", "__copy__", "__deepcopy__", "copy")
+DICT_MUTATORS = ("update", "pop", "popitem", "setdefault", "clear", "__setitem__", "__delitem__")
+
+
+def serialisers_pure(ctx, rule: str, consequence: str, classes: tuple = (), floor: int = 8):
+    """Methods that serialise or copy an object leave the object itself untouched: no store to its attributes and no
+    mutation of its live attribute dictionary (`vars(self)`, `self.__dict__`)."""
+    repo = ctx.repo
+    n = 0
+    for f in repo.all_functions():
+        if f.cls is None or f.module.name.startswith("tdgl.test") or f.node.name not in SERIALISERS:
+            continue
+        if classes and f.cls.name not in classes:
+            continue
+        if not f.node.args.args:
+            continue
+        me = f.node.args.args[0].arg
+        n += 1
+
+        def root(e):
+            if isinstance(e, ast.Attribute) and e.attr == "__dict__" and isinstance(e.value, ast.Name) and e.value.id == me:
+                return "the live attribute dictionary"
+            if isinstance(e, ast.Call) and getattr(e.func, "id", "") == "vars" and len(e.args) == 1 and isinstance(e.args[0], ast.Name) \
+                    and e.args[0].id == me:
+                return "the live attribute dictionary"
+            return None
+        res = analyse(f.node, roots_params=False, root_expr=root)
+        bad = [(node, what) for node, lab, what in res.writes]
+        # dict mutators on an alias of the live dictionary: found by re-running the alias walk on method calls
+        live = set()
+        for st in own_nodes(f.node):
+            if isinstance(st, ast.Assign) and root(st.value):
+                live |= {t.id for t in st.targets if isinstance(t, ast.Name)}
+        for c in own_nodes(f.node):
+            if isinstance(c, ast.Call) and isinstance(c.func, ast.Attribute) and c.func.attr in DICT_MUTATORS:
+                v = c.func.value
+                if root(v) or (isinstance(v, ast.Name) and v.id in live):
+                    bad.append((c, f".{c.func.attr}() on the live attribute dictionary"))
+            if isinstance(c, ast.Attribute) and isinstance(c.ctx, (ast.Store, ast.Del)) and isinstance(c.value, ast.Name) and c.value.id == me:
+                bad.append((c, f"{norm(c)} = ..."))
+            if isinstance(c, ast.Call) and getattr(c.func, "id", "") in ("setattr", "delattr") and c.args and isinstance(c.args[0], ast.Name) \
+                    and c.args[0].id == me:
+                bad.append((c, norm(c)[:60]))
+        ctx.ob(rule, f"{f.qual} does not modify the object it serialises / copies", not bad,
+               detail=[f"L{b.lineno}: {w}" for b, w in bad], where=f.fq, construct=f"{f.qual} mutates self", loc=loc(f, bad[0][0] if bad else f.node),
+               message=f"{f.qual} modifies the object itself: " + "; ".join(f"L{b.lineno}: {w}" for b, w in bad[:3]),
+               consequence=consequence, witness={"writes": [w for _, w in bad[:3]]} if bad else None)
+    if n < floor:
+        raise AnalysisError(f"serialiser purity: only {n} methods found")
+
+
+def may_return_self(cls) -> Dict[str, bool]:
+    """Per method of `cls`: can the returned value be the receiver itself (directly, through a local alias, or through a call
+    on the receiver of a method that can)?  Least fixpoint over the class."""
+    facts: Dict[str, bool] = {m: False for m in cls.methods}
+    calls: Dict[str, List[str]] = {m: [] for m in cls.methods}
+    for m, f in cls.methods.items():
+        if not f.node.args.args or any(norm(d) in ("staticmethod", "classmethod") for d in f.node.decorator_list):
+            continue
+        me = f.node.args.args[0].arg
+        res = analyse(f.node, roots_params=True, skip_params=tuple(a.arg for a in f.node.args.args[1:] + f.node.args.kwonlyargs) + ("cls",))
+        if any(lab == me for _, lab, _ in res.returns):
+            facts[m] = True
+        # return <alias of self>.<method>(...)
+        alias_names = {me}
+        for st in own_nodes(f.node):
+            if isinstance(st, ast.Assign) and isinstance(st.value, ast.Name) and st.value.id in alias_names:
+                alias_names |= {t.id for t in st.targets if isinstance(t, ast.Name)}
+        for r in own_nodes(f.node):
+            if isinstance(r, ast.Return) and isinstance(r.value, ast.Call) and isinstance(r.value.func, ast.Attribute) \
+                    and isinstance(r.value.func.value, ast.Name) and r.value.func.value.id in alias_names:
+                calls[m].append(r.value.func.attr)
+    changed = True
+    while changed:
+        changed = False
+        for m in facts:
+            if not facts[m] and any(facts.get(c, False) for c in calls[m]):
+                facts[m] = True
+                changed = True
+    return facts
+
+
+def fresh_results(ctx, rule: str, table, consequence: str):
+    """table: [(module, class, [methods])] - operations documented to return a new object never return the receiver."""
+    repo = ctx.repo
+    for mod, cname, methods in table:
+        cls = repo.cls(mod, cname)
+        facts = may_return_self(cls)
+        for m in methods:
+            if m not in cls.methods:
+                raise AnalysisError(f"{cname}.{m} no longer exists")
+            f = cls.methods[m]
+            ctx.ob(rule, f"{cname}.{m} never returns the receiver itself", not facts[m], where=f.fq,
+                   construct=f"{cname}.{m} may return self", loc=loc(f, f.node),
+                   message=f"{cname}.{m} can return the object it was called on (directly, through a local alias of self, or through a helper "
+                           f"that can): the 'new' object shares identity with the original",
+                   consequence=consequence)
